@@ -96,6 +96,36 @@ def run(tier, rep):
             except Exception:
                 pass
     rep.coverage['other_drivers_on_sanitizer_build'] = extra_runs
+    # ---- thorough: valgrind memcheck (uninitialised-value use, which neither ASan nor UBSan sees) on the plain build:
+    #      layer A of every background name and one default execution of every accepted double-beta configuration
+    if tier != 'quick':
+        exe = vlib.build_harness('checks/dx.cc', 'plain')
+        vd = os.path.join(dd, 'vg')
+        os.makedirs(vd, exist_ok=True)
+        lit = dxlib.write_literals(vd)
+        vg_runs = 0
+        for tag, lines, layers in (('bkg', ['bkg %s' % n for n in dxlib.bkg_all()], 'A'), ('dbd', c02.grid(), '0')):
+            cfgf = os.path.join(vd, tag + '.cfg')
+            open(cfgf, 'w').write('\n'.join(lines) + '\n')
+            outf = os.path.join(vd, tag + '.jsonl')
+            cmd = ['valgrind', '-q', '--error-exitcode=9', '--trace-children=yes', '--log-file=%s/vg-%s.%%p' % (vd, tag), exe, '--cfgfile', cfgf, '--out', outf,
+                   '--layers', layers, '--oracle', 'ref,inv', '--api', 'generator', '--jobs', '16', '--litdir', lit, '--timeout', '3000', '--deadline', '2400']
+            r = subprocess.run(cmd, stdout=subprocess.PIPE, stderr=subprocess.PIPE, text=True, timeout=3400)
+            if r.returncode not in (0, 9):
+                rep.violation('valgrind:%s:run' % tag, 'valgrind run of the explorer exited %d: %s' % (r.returncode, r.stderr[-300:]))
+            for x in vlib.read_jsonl(outf):
+                vg_runs += x.get('executions', 0) if 'crashed' not in x else 0
+        vrep = {}
+        for f in glob.glob(os.path.join(vd, 'vg-*')):
+            txt = open(f, errors='replace').read()
+            for m in re.finditer(r'==\d+== (Conditional jump or move depends on uninitialised value|Use of uninitialised value[^\n]*|Invalid (?:read|write)[^\n]*|Syscall param[^\n]*)\n((?:==\d+==    [^\n]*\n)+)', txt):
+                fr = re.search(r'(?:at|by) 0x[0-9A-F]+: (bxdecay0::[\w:~]+)[^\n]*\((\w+\.cc):(\d+)\)', m.group(2))
+                key = '%s@%s' % (re.sub(r'\s+', '_', m.group(1))[:40], ('%s:%s' % (fr.group(2), fr.group(1))) if fr else 'unknown')
+                vrep.setdefault(key, m.group(0)[:1500])
+        for k, body in sorted(vrep.items()):
+            rep.violation('valgrind:' + k, 'valgrind memcheck report:\n' + body)
+        rep.coverage['valgrind_executions'] = vg_runs
+        rep.coverage['valgrind_report_sites'] = len(vrep)
     c01.aggregate(rep, total, False, ('san',), 'generator',
                   'the C01-C04 explorer (layers %s; every published background name, every accepted double-beta configuration, windows) run against '
                   'the -fsanitize=address,undefined -D_GLIBCXX_ASSERTIONS build of /repo with recover mode; oracle: zero AddressSanitizer/UBSan reports '
